@@ -372,16 +372,23 @@ def url_quote_plus(v, name='(Unknown name)', md={}):
     return urllib.parse.quote_plus(str(v))
 
 
+def _retaint(orig, result):
+    # Untrusted values stay marked (and get quoted on insertion).
+    if isinstance(orig, TaintedString) and '<' in result:
+        return TaintedString(result)
+    return result
+
+
 def url_unquote(v, name='(Unknown name)', md={}):
     if isinstance(v, bytes):
         return urllib.parse.unquote(v.decode('utf-8')).encode('utf-8')
-    return urllib.parse.unquote(str(v))
+    return _retaint(v, urllib.parse.unquote(str(v)))
 
 
 def url_unquote_plus(v, name='(Unknown name)', md={}):
     if isinstance(v, bytes):
         return urllib.parse.unquote_plus(v.decode('utf-8')).encode('utf-8')
-    return urllib.parse.unquote_plus(str(v))
+    return _retaint(v, urllib.parse.unquote_plus(str(v)))
 
 
 def newline_to_br(v, name='(Unknown name)', md={}):
@@ -412,10 +419,11 @@ def dollars_and_cents(v, name='(Unknown name)', md={}):
 def thousands_commas(v, name='(Unknown name)', md={},
                      thou=re.compile(
                          r"([0-9])([0-9][0-9][0-9]([,.]|$))").search):
+    orig = v
     v = str(v)
     vl = v.split('.')
     if not vl:
-        return v
+        return _retaint(orig, v)
     v = vl[0]
     del vl[0]
     if vl:
@@ -427,7 +435,7 @@ def thousands_commas(v, name='(Unknown name)', md={},
         l_ = mo.start(0)
         v = v[:l_ + 1] + ',' + v[l_ + 1:]
         mo = thou(v)
-    return v + s
+    return _retaint(orig, v + s)
 
 
 def whole_dollars_with_commas(v, name='(Unknown name)', md={}):
